@@ -446,8 +446,13 @@ impl<'a> W<'a> {
                     key[31] |= 0x80;
                 }
                 let mut out = ([0u8; 32], [0u8; 64]);
+                let zero_r = self.rng.chance(1, 4);
+                let s_is_l = zero_r && self.rng.coin();
+                if zero_r {
+                    bump(&mut self.c, "fault:byz_S_zero");
+                }
                 for _try in 0..24 {
-                    let r = refmodel::Sc::from_bytes_mod_order(&self.rng.arr32());
+                    let r = if zero_r { refmodel::Sc::ZERO } else { refmodel::Sc::from_bytes_mod_order(&self.rng.arr32()) };
                     let guess = t[self.rng.below(8) as usize];
                     let rp = b.mul_le(&r.to_bytes()).sub(&guess);
                     let rb = rp.encode();
@@ -455,10 +460,17 @@ impl<'a> W<'a> {
                     let mut sg = [0u8; 64];
                     sg[..32].copy_from_slice(&rb);
                     sg[32..].copy_from_slice(&r.to_bytes());
+                    if s_is_l {
+                        // S = l exactly: the smallest non-canonical S, congruent to the S = 0 that satisfies the equation
+                        sg[32..].copy_from_slice(&sc::l().to_le_bytes());
+                    }
                     out = (key, sg);
                     if t[j].mul_le(&k.to_bytes()) == guess {
-                        bump(&mut self.c, "probe:byz_small_order_equation_holds");
+                        bump(&mut self.c, if s_is_l { "probe:byz_S_equals_l_equation_holds" } else { "probe:byz_small_order_equation_holds" });
                         break;
+                    }
+                    if zero_r {
+                        m.push(self.rng.below(256) as u8);
                     }
                 }
                 out
@@ -625,7 +637,35 @@ impl<'a> W<'a> {
                 2 => n / 2,
                 _ => self.rng.below(n as u64) as usize,
             };
-            match self.rng.below(11) {
+            match self.rng.below(13) {
+                11 => {
+                    // two cooperating entries: only the S halves swapped, so the S terms still sum to the honest total
+                    bump(&mut self.c, "fault:batch_S_halves_swapped");
+                    let other = (pos + 1 + self.rng.below(n.max(2) as u64 - 1) as usize) % n;
+                    if other != pos {
+                        let (a, b) = (entries[pos].2[32..].to_vec(), entries[other].2[32..].to_vec());
+                        entries[pos].2[32..].copy_from_slice(&b);
+                        entries[other].2[32..].copy_from_slice(&a);
+                    }
+                }
+                12 => {
+                    // undecodable R with S crafted by the key owner so that everything but R's term balances
+                    bump(&mut self.c, "fault:batch_undecodable_R_crafted_S");
+                    let i = self.rng.below(nsign as u64) as usize;
+                    let (a_cl, _) = eddsa::expand(&seeds[i]);
+                    let a_sc = refmodel::Sc::from_bytes_mod_order(&a_cl);
+                    let rb = loop {
+                        let b = self.rng.arr32();
+                        if Pt::decode(&b).is_none() {
+                            break b;
+                        }
+                    };
+                    let k = refmodel::Sc::from_wide(&RealSha512.hash(&[&rb, &pubs[i], &entries[pos].1]));
+                    let s = k.mul(&a_sc);
+                    entries[pos].0 = pubs[i].to_vec();
+                    entries[pos].2[..32].copy_from_slice(&rb);
+                    entries[pos].2[32..].copy_from_slice(&s.to_bytes());
+                }
                 0 | 1 => {
                     bump(&mut self.c, "fault:batch_msg_changed");
                     entries[pos].1.push(7);
@@ -809,6 +849,40 @@ impl<'a> W<'a> {
 
     // ------------------------------------------------------------ total decoders (C15)
     fn decoders(&mut self) {
+        if self.rng.chance(1, 4) {
+            // point decoders fed from slices of any length (and the Ristretto one-way map)
+            let g = self.rng.below(2) as u8;
+            let faulty = self.faulty() || self.rng.coin();
+            let bytes = if g == 0 {
+                dict::edwards_wire(&mut self.rng, None, faulty, &mut self.c)
+            } else {
+                dict::ristretto_wire(&mut self.rng, None, faulty, &mut self.c)
+            };
+            let mut bytes = bytes;
+            match self.rng.below(4) {
+                0 => {
+                    bump(&mut self.c, "fault:truncate");
+                    let n = self.rng.below(bytes.len() as u64 + 1) as usize;
+                    bytes.truncate(n);
+                }
+                1 => {
+                    bump(&mut self.c, "fault:extend");
+                    let n = 1 + self.rng.below(40) as usize;
+                    let extra = self.rng.bytes(n);
+                    bytes.extend(extra);
+                }
+                _ => {}
+            }
+            let via = if bytes.len() == 32 { self.rng.below(6) as u8 } else { 1 + 2 * self.rng.below(2) as u8 };
+            self.emit(Step::Dec { g, dst: 3, b: B(bytes), via });
+            if g == 1 && self.rng.coin() {
+                let via = self.rng.below(3) as u8;
+                let n = if via == 2 { self.rng.below(200) as usize } else { 64 };
+                let b = self.rng.bytes(n);
+                self.emit(Step::Uni { dst: 4, b: B(b), via });
+            }
+            return;
+        }
         let tys = [0u8, 1, 2, 3, 4, 5, 6, 7, 8, 10, 15, 19];
         let ty = tys[self.rng.below(tys.len() as u64) as usize];
         let natural = match ty {
